@@ -1417,6 +1417,12 @@ inline validation_errc url::do_parse(const CharT* first, const CharT* last, cons
         const std::basic_string<CharT> inp_copy(first, last);
         return do_parse(inp_copy.data(), inp_copy.data() + inp_copy.length(), base);
     }
+    // the input can also be a view of a search parameter of this URL
+    // (url.parse(*url.search_params().get("next"))): keep the parameters, which
+    // are cleared with the URL, alive until the input has been read
+    url_search_params::name_value_list old_params;
+    if (search_params_ptr_ && !empty())
+        old_params.swap(search_params_ptr_->params_);
 
     const validation_errc res = [&]() {
         detail::url_serializer urls(*this);
